@@ -94,6 +94,8 @@ def check(prog: Program, run: Run) -> None:
     _foreign_value_guards(tm, pt, run)
     _elif_chains(tm, pt, run)
     _loaders(prog, run)
+    _document_alone(prog, run)
+    _lossless_numbers(prog, tm, run)
     common.g4_no_stale_memo(prog, run, "C11.R6", ["odxtools/writepdxfile.py"])
     from . import tagpaths
     tagpaths.check(prog, tm, run, "C11.R7")
@@ -832,6 +834,86 @@ def _elif_chains(tm: TemplateModel, pt, run: Run) -> None:
 
 
 # ----------------------------------------------------------------------- R5
+def _document_alone(prog: Program, run: Run) -> None:
+    """How one document is read (its MODEL-VERSION, hence COMPARAM-SPEC vs COMPARAM-SUBSET)
+    depends on that document alone, not on what was loaded before it: otherwise the database
+    depends on the order of the files."""
+    R = "C11.R5"
+    f = prog.func("Database._process_xml_tree")
+    defs = [x for x in walk_no_nested(f.node) if isinstance(x, ast.Assign) and isinstance(
+        x.targets[0], ast.Name) and x.targets[0].id == "model_version"]
+    if not defs:
+        raise AnalysisError("Database._process_xml_tree: model_version is not assigned")
+    bad = [x for x in defs if any(isinstance(y, ast.Name) and y.id == "self"
+                                  for y in ast.walk(common.resolve_locals(f.node, x.value)))]
+    if bad:
+        run.violation(R, "Database._process_xml_tree", "version-from-history",
+                      f"`{stmt_key(bad[0])}`: the version a document is read with is taken from "
+                      "the state of the database (the files loaded before it): the same archive "
+                      "loads differently -- or not at all -- depending on the order of its "
+                      "members", f"{f.module.rel}:{bad[0].lineno}", stmt_key(bad[0]))
+    else:
+        run.ok(R, "Database._process_xml_tree", "the version of a document is computed from the "
+               "document alone", f"{f.module.rel}:{defs[0].lineno}")
+
+
+def _lossless_numbers(prog: Program, tm: TemplateModel, run: Run) -> None:
+    """A python float is written with `{{ value }}` (repr: shortest text that reads back to the
+    same double).  A function registered as a template global that formats with a fixed
+    precision (`.15g`, `%.6f`, round()) and is applied in a template loses digits."""
+    R = "C11.R8"
+    wp = prog.module("odxtools.writepdxfile")
+    reg: Dict[str, str] = {}
+    for x in ast.walk(wp.tree):
+        if isinstance(x, ast.Assign) and isinstance(x.targets[0], ast.Subscript) and \
+                "globals" in ast.unparse(x.targets[0].value) and isinstance(
+                    x.targets[0].slice, ast.Constant) and isinstance(x.value, ast.Name):
+            reg[x.targets[0].slice.value] = x.value.id
+    lossy: Dict[str, str] = {}
+    for g in prog.iter_functions():
+        if g.module is not wp or g.name not in reg.values():
+            continue
+        for y in walk_no_nested(g.node):
+            spec = None
+            if isinstance(y, ast.FormattedValue) and y.format_spec is not None:
+                spec = "".join(v.value for v in y.format_spec.values
+                               if isinstance(v, ast.Constant))
+            if isinstance(y, ast.Call) and call_name(y) == "format" and y.args and isinstance(
+                    y.args[-1], ast.Constant) and isinstance(y.args[-1].value, str):
+                spec = y.args[-1].value
+            if isinstance(y, ast.BinOp) and isinstance(y.op, ast.Mod) and isinstance(
+                    y.left, ast.Constant) and isinstance(y.left.value, str):
+                m = re.search(r"%[-+ 0#]*\d*(\.\d+)[eEfFgG]", y.left.value)
+                spec = m.group(0) if m else None
+            if spec and re.search(r"\.\d+[eEfFgG%]?$", spec):
+                lossy[g.name] = spec
+            if isinstance(y, ast.Call) and call_name(y) == "round" and len(y.args) == 2:
+                lossy[g.name] = "round()"
+    used = []
+    for gname, fn in reg.items():
+        if fn not in lossy:
+            continue
+        for tname, t in tm.templates.items():
+            src = getattr(t, "source", None)
+            if src is None:
+                import os
+                pth = os.path.join(prog.repo, "odxtools", "templates", tname)
+                if not os.path.exists(pth):
+                    pth = os.path.join(prog.repo, "odxtools", "templates", "macros", tname)
+                src = open(pth).read() if os.path.exists(pth) else ""
+            for m in re.finditer(r"\b" + re.escape(gname) + r"\s*\(", src):
+                used.append((tname, src.count("\n", 0, m.start()) + 1, gname, lossy[fn]))
+    if used:
+        for tname, ln, gname, spec in used[:5]:
+            run.violation(R, f"templates/{tname}", f"lossy-number-format-{gname}",
+                          f"`{gname}(...)` formats with `{spec}`: a float that needs more "
+                          "digits (1/60, 0.1+0.2) is written shortened and reloads as another "
+                          "double", f"odxtools/templates/{tname}:{ln}", gname)
+    else:
+        run.ok(R, "writepdxfile globals", f"{len(reg)} template globals; none formats numbers "
+               "with a fixed precision", wp.rel)
+
+
 def _loaders(prog: Program, run: Run) -> None:
     R = "C11.R5"
     specs = ["Database.add_pdx_file", "odxtools.loadfile:load_files",
@@ -892,36 +974,40 @@ def _description_lines(prog: Program, tm, run: Run) -> None:
     f = prog.func("Description.from_et")
     rets = [r.value for r in walk_no_nested(f.node) if isinstance(r, ast.Return) and isinstance(
         r.value, ast.Call)]
-    txt = None
+    txts = []
     for r in rets:
         for k in r.keywords:
             if k.arg == "text":
-                txt = common.resolve_locals(f.node, k.value)
-    if txt is None:
+                txts.append(common.resolve_locals(f.node, k.value))
+    if not txts:
         raise AnalysisError("Description.from_et: text= not found")
-    per_line = False
-    for x in ast.walk(txt):
-        if isinstance(x, (ast.ListComp, ast.GeneratorExp)) and len(x.generators) == 1:
-            g = x.generators[0]
-            it = g.iter
-            lines = isinstance(it, ast.Call) and isinstance(it.func, ast.Attribute) and (
-                it.func.attr == "splitlines" or (it.func.attr == "split" and it.args and
-                                                 isinstance(it.args[0], ast.Constant) and
-                                                 it.args[0].value == "\n"))
-            strips = isinstance(x.elt, ast.Call) and isinstance(x.elt.func, ast.Attribute) and \
-                x.elt.func.attr == "strip" and ast.unparse(x.elt.func.value) == ast.unparse(
-                    g.target)
-            if lines and strips:
-                per_line = True
-        if isinstance(x, ast.Call) and call_name(x) == "map" and len(x.args) == 2 and \
-                ast.unparse(x.args[0]) == "str.strip":
-            per_line = True
-    if per_line:
+
+    def per_line_stripped(txt: ast.AST) -> bool:
+        for x in ast.walk(txt):
+            if isinstance(x, (ast.ListComp, ast.GeneratorExp)) and len(x.generators) == 1:
+                g = x.generators[0]
+                it = g.iter
+                lines = isinstance(it, ast.Call) and isinstance(it.func, ast.Attribute) and (
+                    it.func.attr == "splitlines" or (it.func.attr == "split" and it.args and
+                                                     isinstance(it.args[0], ast.Constant) and
+                                                     it.args[0].value == "\n"))
+                strips = isinstance(x.elt, ast.Call) and isinstance(x.elt.func, ast.Attribute) \
+                    and x.elt.func.attr == "strip" and ast.unparse(x.elt.func.value) == \
+                    ast.unparse(g.target)
+                if lines and strips:
+                    return True
+            if isinstance(x, ast.Call) and call_name(x) == "map" and len(x.args) == 2 and \
+                    ast.unparse(x.args[0]) == "str.strip":
+                return True
+        return False
+    # every way of building the description (a fast path for plain text included) strips per line
+    bad = [t for t in txts if not per_line_stripped(t)]
+    if not bad:
         run.ok(R, "Description.from_et", "every line of the text is stripped (the writer "
                "re-indents continuation lines)", f.loc)
     else:
         run.violation(R, "Description.from_et", "lines-not-stripped",
-                      f"the description text is `{ast.unparse(txt)[:100]}`: the lines are not "
+                      f"the description text is `{ast.unparse(bad[0])[:100]}`: the lines are not "
                       "stripped one by one, so the indentation the writer adds to continuation "
                       "lines is read back as part of the text (and grows with each cycle)",
                       f.loc)
